@@ -113,6 +113,9 @@ def _pool_items(idx, v, who="alice"):
     add("ok/GetAttributes", {"op": "GetAttributes", "uid": sk_pre})
     add("ok/GetAttributeList", {"op": "GetAttributeList", "uid": sk_pre})
     add("ok/Locate", {"op": "Locate", "attrs": [["Object Type", "SymmetricKey"]]})
+    add("ok/Locate-one-old", {"op": "Locate", "attrs": [["Name", "n-SymmetricKey-ACTIVE"]]})
+    add("ok/Locate-old-secrets", {"op": "Locate", "attrs": [["Object Type", "SecretData"]]})
+    add("ok/Locate-nothing", {"op": "Locate", "attrs": [["Name", "no-such-name"]]})
     add("ok/Activate", {"op": "Activate", "uid": sk_pre})
     add("ok/Revoke", {"op": "Revoke", "uid": idx["SecretData/ACTIVE"], "code": "CESSATION_OF_OPERATION"})
     add("ok/Revoke-compromise", {"op": "Revoke", "uid": idx["SplitKey/PRE_ACTIVE"], "code": "KEY_COMPROMISE"})
